@@ -551,6 +551,12 @@ def body_struct_keys(sh):
         if b:
             out.append((tuple((pfx + str(i + 1), struct_sig(a, pfx + str(i + 1)), a["mode"] == "required") for i, a in b),
                         tuple(core.canon(a) for i, a in b)))
+        # the builder also shares the schemas of the object types INSIDE bodies: two attributes (of any two bodies) holding
+        # structurally equal objects with different validations collide in the same way
+        for i, a in b:
+            sg = struct_sig(a, "x")
+            if "obj{" in sg:
+                out.append((("inner", sg), (a["kind"], a["rule"], a["nest"])))
     return out
 
 
